@@ -20,10 +20,19 @@ def make_adf(e, tabs, n, create_vars=True):
     return adf, Ref([adf], 0), adf.f[e.field('Adf', 'bdd')]
 
 
+def split_table(name, n):
+    """a family over four variables whose branches depend on interleaved variable sets: if x0 then g(x2) else h(x1, x3), g and h symbolic (64 functions);
+    the children of the root depend on {x2} and {x1, x3} - sets of which neither is an interval of the other"""
+    assert n == 4
+    g = tt_bits(name + 'g', 1); h = tt_bits(name + 'h', 2)
+    return [g[(a >> 2) & 1] if a & 1 else h[((a >> 1) & 1) | (((a >> 3) & 1) << 1)] for a in range(16)]
+
+
 def family_tabs(n, spec, prefix='ac'):
-    """spec[s] = 'sym' or a list of bits"""
+    """spec[s] = 'sym' or 'split' (see split_table) or a list of bits"""
     tabs = []
     for s in range(n):
+        if spec[s] == 'split': tabs.append(split_table('%s%d' % (prefix, s), n)); continue
         if spec[s] == 'sym': tabs.append(tt_bits('%s%d' % (prefix, s), n))
         else: tabs.append([bool(b) for b in spec[s]])
     return tabs
